@@ -29,7 +29,7 @@ theorem acct_main {c : Ctl.State (Load.State τ) τ} {k : Nat} {w w' : Wk τ} {p
   | collect =>
     simp only [hph] at hm
     cases p with
-    | collect errs garbage =>
+    | collect errs garbage intr sf0 =>
       simp only at hm
       split at hm <;> (simp only [Option.some.injEq] at hm; subst hm; exact ⟨rfl, rfl⟩)
     | none => simp at hm
